@@ -68,7 +68,11 @@ package stringclassifier
 //@   modifies nothing
 //@   props C13
 //@
+//@ // the expression compiled for a known value is the escaped value
+//@ // (regexp.QuoteMeta): it matches the value's text and nothing else, and no
+//@ // part of the value is interpreted as a pattern
 //@ func literalRegexp
+//@   ensures [literal-pattern] result != nil ==> rePat(result) == quoteMeta(s)
 //@   modifies nothing
 //@   props C13
 //@
@@ -163,7 +167,22 @@ package stringclassifier
 //@   access Classifier.values[] write requires held(&c.muValues) == 2
 //@   props C14 C13
 //@
+//@ // C13 (every value is looked for): the scan under the read lock collects
+//@ // every registered value (collected: each visited key's value is in kvals, and
+//@ // at the end of the scan every key has been visited), and exactly one worker
+//@ // is started per collected value, for that value.
+//@ ghostvar collectedG int
+//@ ghostvar spawnedG int
+//@ spec collected(c *Classifier, kvals []*knownValue, k string) bool = exists i int :: 0 <= i && i < len(kvals) && kvals[i] == c.values[k]
 //@ func (*Classifier).multipleMatch
+//@   ensures [no-value-skipped] result != nil ==> spawnedG == collectedG
+//@   ghostset spawnedG = 0 atentry
+//@   ghostset collectedG = len(kvals) after RUnlock
+//@   ghostset spawnedG = spawnedG + 1 after multipleMatch$1
+//@   callreq multipleMatch$1 requires arg_known == kvals[spawnedG]
+//@   loop 1 invariant len(kvals) == nvisited() && (forall k string :: visited(k) ==> collected(c, kvals, k))
+//@   loop 1 exit forall k string :: (k in c.values) ==> collected(c, kvals, k)
+//@   loop 2 invariant collectedG == len(kvals) && spawnedG == rangeindex + 1
 //@   requires wfC(c) && held(&c.muValues) == 0
 //@   ensures held(&c.muValues) == 0
 //@   ensures result != nil ==> fresh(result) && queueInv(result, normOf(c, unknown)) && allNewer(result, old(nextref()) - 1) && arrNewer(result, old(nextref()) - 1)
